@@ -36,9 +36,9 @@ def _own_nodes(fn):
     while stack:
         n = stack.pop()
         yield n
+        if isinstance(n, FUNC_TYPES + (ast.ClassDef,)):
+            continue        # a nested def/class binds its name here, its body is another scope
         for ch in reversed(list(ast.iter_child_nodes(n))):
-            if isinstance(ch, FUNC_TYPES + (ast.ClassDef,)):
-                continue
             stack.append(ch)
 
 
